@@ -153,7 +153,8 @@ type Case struct {
 	Enc              int
 	EncForms         map[string]int // level -> 0 minimal, 1 indefinite, 2.. non-minimal with k = v-2
 	SIDVariant       issuer.NameVariant
-	NameStyle        int // 0 printable, 1 utf8, 2 bmp CN, 3 multi-valued RDN + extra attributes
+	NameStyle        int // 0 printable, 1 utf8, 2 bmp CN, 3 multi-valued RDN + extra attributes, 4 an attribute type repeated in separate RDNs (two OUs)
+	CardSecOwn       int // EF.CardSecurity: 0 signed like the SOD; 1 / 2 signed 400 days earlier / later by a DS certificate of its own whose validity does not contain the SOD's signing time
 	Extra            int // 0 none, 1 CSCA, 2 DS2 after, 3 DS2 before, 4 CSCA + DS2
 	Store            int
 	CardSec          bool
@@ -331,7 +332,8 @@ func drawCase(ch chooser, fastBias bool) Case {
 		}
 		c.SIDVariant = v
 	}
-	c.NameStyle = ch.Weighted("namestyle", 4, 2, 2, 2)
+	c.NameStyle = ch.Weighted("namestyle", 4, 2, 2, 2, 2)
+	c.CardSecOwn = ch.Weighted("cardsec-own-signer-and-time", 2, 1, 1)
 	c.Extra = ch.Weighted("extra", 3, 2, 2, 2, 1)
 	c.Store = ch.Weighted("store", 3, 2, 1, 2, 2, 1, 1, 1, 1)
 	c.CardSec = ch.Weighted("cardsec", 3, 1) == 1
@@ -385,6 +387,14 @@ func styledName(style int, country, ou, cn string) issuer.Name {
 			{{OID: issuer.OidLocality, Value: "Capital City", Type: issuer.UTF8}},
 			{{OID: issuer.OidCountry, Value: country}},
 		}
+	case 4:
+		return issuer.Name{
+			{{OID: issuer.OidCountry, Value: country}},
+			{{OID: issuer.OidOrganization, Value: "Verif Authority"}},
+			{{OID: issuer.OidOrgUnit, Value: ou}},
+			{{OID: issuer.OidOrgUnit, Value: "Passport Office", Type: issuer.UTF8}},
+			{{OID: issuer.OidCommonName, Value: cn}},
+		}
 	}
 	return issuer.SimpleName(country, "Verif Authority", ou, cn)
 }
@@ -430,6 +440,7 @@ type world struct {
 	pki        *issuer.PKI
 	sod        *issuer.SignedData
 	cardSec    *issuer.SignedData
+	cardSigner []byte // DS certificate of EF.CardSecurity when it is not the SOD's
 	docDGs     map[int][]byte
 	store      [][]byte // trust store in order
 	acceptable [][]byte // anchors the chain may end in
@@ -654,6 +665,27 @@ func build(c Case, src issuer.Source) (*world, error) {
 	if c.CardSec {
 		si := lds.SecurityInfos(lds.PACEInfo("0.4.0.127.0.7.2.2.4.2.2", 2, big.NewInt(13)), lds.UnknownInfo("1.3.6.1.4.1.55555.3.1", []byte{1, 2, 3}))
 		co := issuer.CMSOptions{SID: issuer.SIDForm(c.SID), NoSigningTime: !c.SigningTime, DigestNull: c.DigestNull}
+		// EF.CardSecurity is a signed object of its own: it may have been produced at another time by
+		// another document signer certificate, valid THEN and not at the SOD's signing time
+		own := c.CardSecOwn
+		if !c.SigningTime || (own == 1 && (c.CSCAWin == 1 || c.CSCAWin == 3)) || (own == 2 && (c.CSCAWin == 2 || c.CSCAWin == 3)) {
+			own = 0 // no stated time, or the CSCA's validity ends / starts at the SOD's signing time on that side
+		}
+		if own != 0 {
+			t2 := t.Add(-400 * day)
+			if own == 2 {
+				t2 = t.Add(400 * day)
+			}
+			ds3, err := pki.IssueDS(pki.DSKey, styledName(c.NameStyle, c.Country, "DS", "Document Signer 0044"), func(dt *issuer.CertTemplate) {
+				dt.NotBefore, dt.NotAfter = t2.Add(-10*day), t2.Add(10*day)
+			})
+			if err != nil {
+				return nil, err
+			}
+			co.Signer, co.SigningTime = ds3, &t2
+			w.cardSigner = ds3.DER
+			evidCount(fmt.Sprintf("cardsec-own-signer:%d", own))
+		}
 		if w.cardSec, err = pki.SignCardSecurityDetailed(si, co); err != nil {
 			return nil, err
 		}
@@ -716,8 +748,20 @@ func verdict(w *world) string {
 		if len(chain) != 2 {
 			return fmt.Sprintf("%s: chain has %d elements, want 2", what, len(chain))
 		}
-		if !bytes.Equal(chain[0], w.pki.DS.DER) {
+		signer := w.pki.DS.DER
+		if what == "CardSecurity" && w.cardSigner != nil {
+			signer = w.cardSigner
+		}
+		if !bytes.Equal(chain[0], signer) {
 			return what + ": chain[0] is not the document signer certificate"
+		}
+		if what == "CardSecurity" && w.cardSigner != nil {
+			// signed at another time: which of the store's anchors are usable is decided at THAT time
+			// (an anchor expired at the SOD's signing time may be the right one here)
+			if !in(w.store, chain[1]) {
+				return what + ": chain[1] is not a certificate of the trust store: " + hexHead(chain[1])
+			}
+			return ""
 		}
 		if !in(w.acceptable, chain[1]) {
 			return what + ": chain[1] is not an acceptable trust anchor: " + hexHead(chain[1])
@@ -1066,3 +1110,5 @@ func TestReplayJSON(t *testing.T) {
 		}
 	}
 }
+
+func evidCount(class string) { evid.Count(class, 1) }
